@@ -253,8 +253,24 @@ pub trait Group: Sync {
     fn inconclusive(&self, impl_out: &str) -> bool {
         impl_out.starts_with("inconclusive")
     }
+    /// the outcome depends on wall-clock timing (real waits, loopback scheduling): a failure is reported only if it
+    /// shows again when the same line is run again (up to `RECONFIRM` more times); failures that do not are counted
+    /// as `unreproduced` in the evidence. Logic errors reproduce; jitter under load does not.
+    fn timing_sensitive(&self) -> bool {
+        false
+    }
     /// human readable rule for the evidence
     fn rule(&self) -> &'static str;
+}
+
+const RECONFIRM: usize = 3;
+
+/// for timing-sensitive groups: does the failure on `line` show again?
+fn reconfirm(g: &dyn Group, ctx: &Ctx, line: &str, want_oracle: bool) -> bool {
+    if !g.timing_sensitive() {
+        return true;
+    }
+    (0..RECONFIRM).any(|_| still_fails(g, ctx, line, want_oracle))
 }
 
 #[derive(Default)]
@@ -268,6 +284,8 @@ pub struct GroupResult {
     pub samples: Vec<serde_json::Value>,
     pub disagreements: Vec<serde_json::Value>,
     pub oracle_failures: Vec<serde_json::Value>,
+    /// failures of timing-sensitive groups that did not show again on re-runs
+    pub unreproduced: Vec<serde_json::Value>,
     pub max_len: usize,
     pub wall_s: f64,
 }
@@ -366,6 +384,10 @@ pub fn run_group(g: &dyn Group, ctx: &Ctx, rng: &mut Rng, corpus: &[String], onl
             distinct.insert(l.clone());
         }
         if let Some((key, what)) = g.oracle(ctx, l, &impl_out[i]) {
+            if !reconfirm(g, ctx, l, true) {
+                res.unreproduced.push(serde_json::json!({"group": g.name(), "line": l, "impl": impl_out[i], "key": key, "what": what}));
+                continue;
+            }
             if res.oracle_failures.len() < 3 {
                 let small = shrink_line(g, ctx, l, true);
                 let io = guarded(|| g.run_impl(ctx, &small));
@@ -379,6 +401,10 @@ pub fn run_group(g: &dyn Group, ctx: &Ctx, rng: &mut Rng, corpus: &[String], onl
     for (j, i) in cmp_idx.iter().enumerate() {
         let (a, b) = (g.canon(&impl_out[*i]), g.canon(&model_out[j]));
         if a != b {
+            if !reconfirm(g, ctx, &lines[*i], false) {
+                res.unreproduced.push(serde_json::json!({"group": g.name(), "line": lines[*i], "impl": a, "model": b}));
+                continue;
+            }
             if res.disagreements.len() < 3 {
                 let small = shrink_line(g, ctx, &lines[*i], false);
                 let io = guarded(|| g.run_impl(ctx, &small));
@@ -405,7 +431,7 @@ impl GroupResult {
         serde_json::json!({
             "group": self.name, "rule": self.rule, "evaluations": self.evaluations, "compared_with_model": self.compared,
             "distinct_nontrivial": self.distinct_nontrivial, "histogram": self.histogram, "samples": self.samples,
-            "disagreements": self.disagreements, "oracle_failures": self.oracle_failures, "max_line_len": self.max_len,
+            "disagreements": self.disagreements, "oracle_failures": self.oracle_failures, "unreproduced_timing_failures": self.unreproduced, "max_line_len": self.max_len,
             "wall_s": self.wall_s,
         })
     }
